@@ -120,6 +120,15 @@ def run(ctx) -> None:
     if n_rr < 6:
         raise AnalysisError(f"only {n_rr} RunResult constructions found")
 
+    fo_ = db.func("runners._shared.helpers.filter_outputs")
+    for m in template_methods(db, "run"):
+        for k, c in enumerate([c for c in db.calls_in(m) if "filter_outputs" in call_names(db, c, m)]):
+            b = bind_args(c, fo_)
+            ok = b.get("select") is not None and src(b["select"]) == "select" and src(b.get("graph")) == "graph"
+            h = enclosing(c, (ast.ExceptHandler,))
+            where = f"except {src(h.type)}" if h is not None and h.type is not None else "success path"
+            rep.add("C16.R2", f"{m.qname}:filter_outputs#{k}:{where}", ok, f"{m.module.rel}:{c.lineno}", "values are restricted to the caller's run-time selection" if ok else f"filter_outputs on the {where} does not receive the run-time 'select': a completed/failed/paused result would fall back to the graph default or to all outputs")
+
     # ---- R3 ---------------------------------------------------------------------
     ca = db.func("runners._shared.helpers._collect_all_outputs")
     cs = db.func("runners._shared.helpers._collect_selected_outputs")
@@ -222,6 +231,7 @@ VARIANTS = [
     Variant("scheduler-skip-after-ready", HP, replace_once("        if active_nodes is not None and node.name not in active_nodes:\n            continue\n        if _is_node_ready(node, graph, state, activated_nodes):\n            ready.append(node)", "        if _is_node_ready(node, graph, state, activated_nodes):\n            ready.append(node)\n        if active_nodes is not None and node.name not in active_nodes:\n            continue"), {"C16.R1"}),
     Variant("result-values-raw-state", TS, replace_once("            output_values = filter_outputs(state, graph, select, on_missing)\n", "            output_values = dict(state.values)\n"), {"C16.R2", "C16.R5"}),
     Variant("paused-values-unfiltered", TA, replace_once("            partial_values = filter_outputs(partial_state, graph, select) if partial_state is not None else {}\n            return RunResult(\n                values=partial_values,\n                status=RunStatus.PAUSED,", "            partial_values = dict(partial_state.values) if partial_state is not None else {}\n            return RunResult(\n                values=partial_values,\n                status=RunStatus.PAUSED,"), {"C16.R2"}),
+    Variant("paused-values-ignore-select", TA, replace_once("            partial_values = filter_outputs(partial_state, graph, select) if partial_state is not None else {}\n            return RunResult(\n                values=partial_values,\n                status=RunStatus.PAUSED,", "            partial_values = filter_outputs(partial_state, graph) if partial_state is not None else {}\n            return RunResult(\n                values=partial_values,\n                status=RunStatus.PAUSED,"), {"C16.R2"}),
     Variant("collect-all-from-state", HP, replace_once("    return {k: state.values[k] for k in graph.outputs if k in state.values and state.values[k] is not sentinel}", "    return {k: v for k, v in state.values.items() if v is not sentinel}"), {"C16.R3"}),
     Variant("collect-sentinel-by-equality", HP, replace_once("    return {k: state.values[k] for k in graph.outputs if k in state.values and state.values[k] is not sentinel}", "    return {k: state.values[k] for k in graph.outputs if k in state.values}"), {"C16.R3"}),
     Variant("runtime-select-unvalidated", "src/hypergraph/runners/_shared/validation.py", sub_once(r"    invalid = \[n for n in sel if n not in graph\.outputs\]\n    if invalid:\n.*?\n        \)\n    return sel", "    return sel"), {"C16.R3"}),
